@@ -28,6 +28,11 @@ func c16Gen(tier string, seed int64) []fw.Case {
 	for i := 0; i < 16; i++ {
 		cs = append(cs, fw.Mk(fmt.Sprintf("reconn-%d", i), c16Params{Mode: "reconn", N: scale(tier, 5, 600)}))
 	}
+	for i := 0; i < 8; i++ {
+		// Disconnect racing with a connection-ending cause, many times: the window in which the Closed callback
+		// is overtaken by the Disconnected one (known finding) is a few instructions wide
+		cs = append(cs, fw.Mk(fmt.Sprintf("disconnect-race-%d", i), c16Params{Mode: "race", N: scale(tier, 1500, 20000)}))
+	}
 	return cs
 }
 
@@ -161,10 +166,10 @@ func checkConnStates(ev []memnet.Event, conn int, cli *mqtt.BaseClient, disconne
 	return "", ""
 }
 
-func c16Base(rng *rand.Rand) (sig, detail string, trace []string, shape string) {
+func c16Base(rng *rand.Rand, forceRace bool) (sig, detail string, trace []string, shape string) {
 	tr := memnet.NewTrace()
 	peer := &scen.Script{Tr: tr, AutoConnack: true, AutoPing: true, AutoAck: true}
-	refuse := rng.Intn(6) == 0
+	refuse := rng.Intn(6) == 0 && !forceRace
 	if refuse {
 		peer.ConnackCode = byte(1 + rng.Intn(5))
 	}
@@ -220,7 +225,11 @@ func c16Base(rng *rand.Rand) (sig, detail string, trace []string, shape string) 
 			chosen = append(chosen, c)
 		}
 	}
-	race := n == 2 && rng.Intn(2) == 0
+	if forceRace {
+		chosen = []string{"disconnect", []string{"localclose", "peerclose", "malformed"}[rng.Intn(3)]}
+		n = 2
+	}
+	race := n == 2 && (rng.Intn(2) == 0 || forceRace)
 	var wg sync.WaitGroup
 	var mu sync.Mutex
 	firstCause, discCall := -1, -1
@@ -499,7 +508,9 @@ func c16Run(c fw.Case, env *fw.Env) fw.Result {
 		var trc []string
 		sub := rand.New(rand.NewSource(rng.Int63()))
 		if p.Mode == "base" {
-			sig, det, trc, shape = c16Base(sub)
+			sig, det, trc, shape = c16Base(sub, false)
+		} else if p.Mode == "race" {
+			sig, det, trc, shape = c16Base(sub, true)
 		} else {
 			sig, det, trc, shape = c16Reconn(sub)
 		}
@@ -523,6 +534,15 @@ func c16Run(c fw.Case, env *fw.Env) fw.Result {
 				return r
 			}
 		default:
+			if sig == "closed-callback-overtaken-by-disconnect" {
+				// a recorded known finding: note it (once per case) and keep exploring the rest of the case
+				r.Counters["closed_callback_overtaken"]++
+				if len(r.More) == 0 {
+					r.More = append(r.More, fw.Finding{Sig: sig, Detail: det})
+					r.Trace = trc
+				}
+				continue
+			}
 			r.Verdict = fw.Violated
 			r.Sig = sig
 			r.Detail = det
@@ -539,7 +559,7 @@ func init() {
 		Level: "fault_enumeration",
 		Rule: "base: a BaseClient connection is ended by one or two (sequential or racing) causes from {peer close, local Close, malformed packet, Disconnect} or a refused CONNACK; reconn: a ReconnectClient with keep-alive 0/2/3/5 ms goes through 1-4 connections ended by idle cut, malformed packet, keep-alive silence, refused/absent CONNACK or cuts, " +
 			"then the re-established connection is sampled >= 3 keep-alive intervals after its CONNACK, Disconnect is called, and Err()/Done() are sampled right away and again 3 intervals later. Per-connection automaton over the ConnState callback log plus samples: Active <= 1 and only after an accepting CONNACK was sent; " +
-			"ended without Disconnect => exactly one Closed with a non-nil error equal to Err(); Disconnect => exactly one Disconnected and never Closed after it; graceful Disconnect => no Closed and Err()==nil (also later); healthy => Err()==nil and Done() open; ended => Done() closed. Racing causes: only the order-independent rules. Non-trivial: every run (a connection ended or was sampled).",
+			"ended without Disconnect => exactly one Closed with a non-nil error equal to Err(); Disconnect => exactly one Disconnected and never Closed after it; graceful Disconnect => no Closed and Err()==nil (also later); healthy => Err()==nil and Done() open; ended => Done() closed. Racing causes: only the order-independent rules; a dedicated mode races Disconnect against a connection-ending cause thousands of times (this is where the known finding closed-callback-overtaken-by-disconnect shows). Non-trivial: every run (a connection ended or was sampled).",
 		Assumptions: []string{"relative order of Active and Closed is not constrained", "when two causes race every outcome the statement allows is accepted"},
 		Gen:         c16Gen,
 		Run:         c16Run,
